@@ -511,6 +511,9 @@ def run(ctx):
                 ctx.distinct.add((m.key, b["id"]))
     ctx.extra["behaviours_replayed"] = {m.key: len(all_behs[m.key]) for m in MACHINES}
     ctx.extra["replay_totals"] = totals
+    # which side of the self-move-assignment don't-care band the real types take (recorded, never judged)
+    ctx.extra["self_move_assign_outcomes_observed"] = {"unchanged": totals.get("alt_took_unchanged", 0),
+                                                       "released_what_it_owned": totals.get("alt_took_released", 0)}
     ctx.extra["concretisations_per_behaviour"] = ninst
     ops = {}
     for m in MACHINES:
